@@ -18,7 +18,7 @@ import (
 func init() {
 	core.Register(&core.Check{
 		ID: "C04", Level: "exploration",
-		Rule:   "evalPoint in {0,1,2,127,128,254,255,256,257,258,2^64,r-2,r-1,PRF x2} (thorough: additionally every point 0..300) x POLY (14 polynomials: zero, constants, unit vectors, sparse, max, ramp, x^255, PRF) x result in {p(point), p(point)+1, 0, -p(point), f[point+-1 mod 256], p evaluated at point+-1}; one IPA proof per (point, polynomial), one verification per result; the exported computeBVector is compared with the unit vector / reference Lagrange coefficients on 250..260; non-trivial = every case except the zero polynomial with result 0",
+		Rule:   "evalPoint in {0,1,2,127,128,254,255,256,257,258,2^64,r-2,r-1,PRF x2} (thorough: additionally every point 0..300) x POLY (14 polynomials: zero, constants, unit vectors, sparse, max, ramp, x^255, PRF) x result in {p(point), p(point)+1, 0, -p(point), f[point+-1 mod 256], p evaluated at point+-1}; one IPA proof per (point, polynomial), one verification per result; two polynomials per point re-proved under NumCPU {1,2,3,17,64,65,128,300}; four proofs stored back to back in one buffer verified in sequence; the exported computeBVector is compared with the unit vector / reference Lagrange coefficients on 250..260; non-trivial = every case except the zero polynomial with result 0",
 		Assume: []string{"p(point) is computed by the reference in coefficient form (interpolation + Horner), not by the library's barycentric code", "a wrong result being rejected is a 2^-250 probabilistic fact backed by the verification equation"},
 		Units:  c04Units,
 	})
